@@ -59,7 +59,7 @@ func genC12(t *rapid.T) C12Case {
 	ids := []string{"alice", "bob", "s3"}
 	if n > 1 && chancePct(t, 50, "siblingid") {
 		// an id that looks like a scratch name derived from another session's id
-		ids[1] = ids[0] + []string{".tmp", ".tmp", ".tmp", "~", ".bak", ".new", ".lock", ".swp", "-tmp", ".1", ".old", ".part"}[uniformN(t, 12, "suffix")]
+		ids[1] = ids[0] + []string{".tmp", ".tmp", ".tmp", "~", ".bak", ".new", ".lock", ".swp", "-tmp", ".1", ".old", ".part", "-b", "-2"}[uniformN(t, 14, "suffix")]
 		if chancePct(t, 25, "siblingprefix") {
 			ids[1] = []string{".tmp-", "tmp", "#", ".#", "_"}[uniformN(t, 5, "prefix")] + ids[0]
 		}
